@@ -305,6 +305,7 @@ theorem parseQ_rest_len (s : Bytes) (q : Nat) (r : Bytes) (h : parseQ s = .ok q 
   cases hs : strtod s with
   | noConv => rw [hs] at h; cases h
   | unspec => rw [hs] at h; cases h
+  | nonfinite => rw [hs] at h; cases h
   | dec d =>
     rw [hs] at h
     have hl := strtod_rest_len s d hs
